@@ -157,6 +157,26 @@ def generate(g, tier):
             for k in range(n): files[f'proj/c{k}.txt'] = (f'START c{k + 1}' if k + 1 < n else 'STRING deep')
             opts = dict(stack_limit=n + 5); exp = ['ok', ['STRING deep', 'STRING end'], [], None]
         cases.append(dict(op='compile_file', file=main, files=files, opts=opts, meta=dict(family='options-depth-' + opt, exp=exp)))
+    # a grouped START (one name per line) resolves EVERY name from the folder of the file the command stands in, exactly like
+    # the same names on separate START lines — whatever an earlier name of the group climbed
+    for _ in range(count(tier, 40, 300)):
+        names = r.sample(['.up', 'side', '..top', 'sub.inner', '.up2', 'side2'], r.randint(2, 4))
+        files = {'proj/a/b/up.txt': 'STRING up', 'proj/a/b/up2.txt': 'STRING up2', 'proj/a/b/c/side.txt': 'STRING side-here', 'proj/a/b/side.txt': 'STRING side-parent',
+                 'proj/a/b/c/side2.txt': 'STRING side2-here', 'proj/a/side2.txt': 'STRING side2-far', 'proj/a/top.txt': 'STRING top', 'proj/a/b/c/sub/inner.txt': 'STRING inner',
+                 'proj/a/b/sub/inner.txt': 'STRING inner-parent'}
+        expect = {'.up': 'STRING up', '.up2': 'STRING up2', 'side': 'STRING side-here', 'side2': 'STRING side2-here', '..top': 'STRING top', 'sub.inner': 'STRING inner'}
+        kw = r.choice(['START', 'STARTCODE'])
+        for form in range(3):
+            main = [f'{kw}\n' + '\n'.join('    ' + n for n in names), '\n'.join(f'{kw} {n}' for n in names), f'{kw} {names[0]}\n' + '\n'.join('    ' + n for n in names[1:])][form]
+            cases.append(dict(op='compile_file', file='proj/a/b/c/main.txt', files=dict(files, **{'proj/a/b/c/main.txt': main + '\nSTRING end'}),
+                              meta=dict(family='grouped-start', exp=['ok', [expect[n] for n in names] + ['STRING end'], [], None])))
+    # the same function text defined by files of different folders: each definition imports relative to ITS file
+    for _ in range(count(tier, 20, 150)):
+        kw = r.choice(['START', 'STARTENV'])
+        body = 'FUNC load\n    START data\n'
+        files = {'proj/main.txt': f'{kw} lib1.tools\nRUN load\n{kw} lib2.tools\nRUN load\n{kw} lib1.tools\nRUN load\nSTRING end',
+                 'proj/lib1/tools.txt': body, 'proj/lib2/tools.txt': body, 'proj/lib1/data.txt': 'STRING data-1', 'proj/lib2/data.txt': 'STRING data-2'}
+        cases.append(dict(op='compile_file', file='proj/main.txt', files=files, meta=dict(family='same-function-text', exp=['ok', ['STRING data-1', 'STRING data-2', 'STRING data-1', 'STRING end'], [], None])))
     # START reads the file as it is NOW: the same paths compiled again in the same process after the imported file changed
     from . import C17
     cases += [c for c in C17.revisit_histories(g, count(tier, 40, 300)) if c['meta']['family'] in ('revisit-import-content', 'revisit-mixed')]
